@@ -37,6 +37,10 @@ std::string DumpLinkGraph(mp::pre::BasicValuePresolver &bp,
   bool first = true;
   mp::pre::BasicLink::EntryItems ei;
   int nrange = 0;
+  // registration by POINTER: every node an entry names must be a member of val_nodes_; names must identify nodes uniquely
+  int unreg = 0, dupnames = 0;
+  for (size_t i = 1; i < nl.size(); ++i) if (nl[i].first == nl[i - 1].first) ++dupnames;
+  auto chk = [&](const mp::pre::NodeRange &r) { if (!nodes.count(r.GetValueNode())) ++unreg; };
   for (auto it = brl.begin(); it != brl.end(); ++it, ++nrange) {
     for (int i = it->ir_.beg_; i != it->ir_.end_; ++i) {
       it->b_.ExportEntryItems(ei, i);
@@ -44,9 +48,9 @@ std::string DumpLinkGraph(mp::pre::BasicValuePresolver &bp,
       first = false;
       std::string tn = it->b_.GetTypeName();
       s += "{\"t\":" + rec::str(tn) + ",\"lr\":" + std::to_string(nrange) + ",\"i\":" + std::to_string(i) + ",\"s\":[";
-      for (size_t k = 0; k < ei.src_items_.size(); ++k) s += (k ? "," : "") + nr(ei.src_items_[k]);
+      for (size_t k = 0; k < ei.src_items_.size(); ++k) { s += (k ? "," : "") + nr(ei.src_items_[k]); chk(ei.src_items_[k]); }
       s += "],\"d\":[";
-      for (size_t k = 0; k < ei.dest_items_.size(); ++k) s += (k ? "," : "") + nr(ei.dest_items_[k]);
+      for (size_t k = 0; k < ei.dest_items_.size(); ++k) { s += (k ? "," : "") + nr(ei.dest_items_[k]); chk(ei.dest_items_[k]); }
       s += "]";
       if (tn.rfind("Range2Slk", 0) == 0 && ei.src_items_.size() == 1 && rangecon) {
         bool quad = ei.src_items_[0].GetValueNode()->GetName().find("quad") != std::string::npos;
@@ -56,7 +60,7 @@ std::string DumpLinkGraph(mp::pre::BasicValuePresolver &bp,
       s += "}";
     }
   }
-  return s + "]}";
+  return s + "],\"unreg\":" + std::to_string(unreg) + ",\"dupnames\":" + std::to_string(dupnames) + "}";
 }
 
 }  // namespace rec_c04
